@@ -353,7 +353,7 @@ var kind11Names = []string{"Encoder", "Decoder", "Serializer"}
 func init() {
 	core.Register(&core.Prop{
 		ID: "C11", Level: "model_checking",
-		Rule: "Explicit-state breadth-first search over histories of operations on one Encoder, one Decoder and one Serializer: one-shot encodes of 9 values (incl. shared-pointer graphs, typed lists, a long string, an unencodable value that fails half-way), WriteTo with a writer failing at Write #1 / #3, one-shot decodes of 18 byte strings (the library's own renderings, a reference rendering with a type back-reference, inputs that only resolve against stale type/class/reference tables, truncated and unknown-tag garbage, empty input), ReadFrom, streaming writes and reads, Reset. Successor = replay on a fresh instance + one operation; states deduplicated by the instance's private fields (verif hooks); searched to depth 3 (quick) / 5 (thorough) and, for the one-shot sub-alphabet, to a fixpoint. Oracle: every one-shot operation in every history returns exactly what it returns on a freshly constructed instance (bytes, denoted value and type, normalised error or panic); byte slices returned earlier are unchanged; after every operation the values, input bytes and the caller's complete name and type maps are unchanged. Non-trivial = history of length >= 2; distinct = distinct (state, operation) pairs.",
+		Rule:        "Explicit-state breadth-first search over histories of operations on one Encoder, one Decoder and one Serializer: one-shot encodes of 9 values (incl. shared-pointer graphs, typed lists, a long string, an unencodable value that fails half-way), WriteTo with a writer failing at Write #1 / #3, one-shot decodes of 18 byte strings (the library's own renderings, a reference rendering with a type back-reference, inputs that only resolve against stale type/class/reference tables, truncated and unknown-tag garbage, empty input), ReadFrom, streaming writes and reads, Reset. Successor = replay on a fresh instance + one operation; states deduplicated by the instance's private fields (verif hooks); searched to depth 3 (quick) / 5 (thorough) and, for the one-shot sub-alphabet, to a fixpoint. Oracle: every one-shot operation in every history returns exactly what it returns on a freshly constructed instance (bytes, denoted value and type, normalised error or panic); byte slices returned earlier are unchanged; after every operation the values, input bytes and the caller's complete name and type maps are unchanged. Non-trivial = history of length >= 2; distinct = distinct (state, operation) pairs.",
 		Assumptions: []string{"maps in inputs have at most one entry (Go map order would make bytes incomparable)", "state key = private tables of the instance; equal keys are assumed to have equal futures"},
 		Units: func(tier string) []core.Unit {
 			depth := tierPick(tier, 3, 5)
